@@ -3,10 +3,14 @@ from .. import common as C
 from .. import rwgen
 
 ID = "C14"
-MODULES = ["Helios.Props.C14"]
+MODULES = ["Helios.Props.CodeRW", "Helios.Props.C14"]
 THEOREMS = ["Helios.Http.resp_bounded", "Helios.Http.resp_413_if_early", "Helios.Http.within_transparent",
             "Helios.Http.within_transparent_implicit",
-            "Helios.Http.req_gate"]
+            "Helios.Http.req_gate",
+            # Tie C: the plugin's response writer (Write, checkLimit, ensureHeaderWritten, WriteHeader, Flush), translated
+            # from the source on every run, is the model's Lim.step — state and the calls handed on, in order
+            "Helios.CodeTie.write_refines", "Helios.CodeTie.writeHeader_refines", "Helios.CodeTie.ensure_refines",
+            "Helios.CodeTie.flush_refines", "Helios.CodeTie.flush_no_flusher", "Helios.CodeTie.translation_clean_rw"]
 
 
 def build(ctx):
